@@ -82,7 +82,7 @@ package dns
 //@ spec plen(m seq, a int, k int) int = k <= 0 ? 0 : plen(m, a, k-1) + wlen(m[a+k-1]) decreases k
 //@ spec unitat(s seq, p int, b int) bool = special(b) ? (s[p] == '\\' && s[p+1] == b) : ((b < 32 || b > 126) ? (s[p] == '\\' && s[p+1] == '0' + b / 100 && s[p+2] == '0' + (b / 10) % 10 && s[p+3] == '0' + b % 10) : s[p] == b)
 
-//@ func UnpackDomainName [C02 C03 C04 C01:label]
+//@ func UnpackDomainName [C02 C03 C04 C01]
 //@   requires 0 <= off
 // every label is printed octet by octet, each octet as its escape unit of RFC 1035 5.1 (label.last: the unit just
 // written is the one the escape table prescribes; label.len: the text grows by exactly the units' lengths), then a
@@ -475,3 +475,10 @@ package dns
 //@   callsite "DecodedLen" text: arg0 == len(rr.Rdata)
 // ... and the typed record must account for every octet: surplus RDATA is an error, as it is on the wire
 //@   exit whole: ret0 == nil && called("unpack") ==> callres("unpack", 0) == len(callres("DecodeString", 0))
+
+// every record of a user-registered private type gets RDATA of its own: the constructor registered in TypeToRR
+// asks the generator for a new value each time it is called (records sharing one PrivateRdata would all show
+// the RDATA of the last one unpacked)
+//@ func PrivateHandle$1 [C01 C16]
+//@   opt no-safety
+//@   exit own: called("generator")
